@@ -9,6 +9,7 @@ import AaVerif.Logs
 import AaVerif.Layout
 import AaVerif.Prep
 import AaVerif.Directive
+import AaVerif.Props.C08
 import AaVerif.Aa.Resolve
 import AaVerif.Generated.LogRx
 open Proto
@@ -237,12 +238,20 @@ def suiteStackClean (f : List String) : String :=
   | [_] => "ok\t"
   | _ => "err\tbad-op"
 
+/-- closed <defs;...> <refs;...> -> ok <missing;...> -/
+def suiteClosed (f : List String) : String :=
+  match f with
+  | [d, r] => "ok\t" ++ escList ((C08.missing (strs d) (strs r)).map String.toList)
+  | [_] => "ok\t"
+  | _ => "err\tbad-op"
+
 def main (args : List String) : IO Unit := do
   match args with
   | ["builder"] => serve suiteBuilder
   | ["setflags"] => serve suiteSetflags
   | ["filter"] => serve suiteFilter
   | ["layout"] => serve suiteLayout
+  | ["closed"] => serve suiteClosed
   | ["dbusspec"] => serve suiteDbusSpec
   | ["stackclean"] => serve suiteStackClean
   | ["prepare"] => serve suitePrepare
